@@ -37,7 +37,7 @@ ANCHORS = [("leuvenmapmatching/map/sqlite.py", "SqliteMap.read_properties"),
            ("leuvenmapmatching/map/base.py", "BaseMap.use_latlon")]
 FLOORS = {"reopen_cycles:planar": 100, "reopen_cycles:latlon": 80, "deferred_commit_histories": 50, "deferred_index_histories": 50,
           "committing_ops_checked": 1500, "reindex_checked": 100, "pickle_cycles": 60, "queries_compared": 4000,
-          "reopen_with_first_connection_open": 40, "repeated_node_adds": 100, "debug_level_histories": 300, "linked_after_reopen": 300, "linked_after_reopen_with_links": 30}
+          "reopen_with_first_connection_open": 40, "repeated_node_adds": 100, "debug_level_histories": 300, "linked_after_reopen": 300, "settings_changed_and_saved": 300, "linked_after_reopen_with_links": 30}
 ASSUMPTIONS = ["a history that used no_commit ends with an explicit db.commit() before the map is reopened (the documented contract: "
                "'remember to commit later'); histories that used no_index end with the matching reindex_* call in 85 % of the cases, "
                "otherwise only original-vs-reopened (not the model) is compared on index-backed listings",
@@ -124,6 +124,10 @@ def gen_case(rng, i, tier):
             reindexed = False
     if used_no_commit:
         ops.append({"op": "commit"})
+    if rng.random() < 0.2:
+        # settings changed on the live map and stored with the public save_properties(): the file must hand back the LAST state
+        newcrs = rng.choice([["EPSG:4326", "EPSG:31370"], ["EPSG:4258", "EPSG:3035"], ["EPSG:4326", "EPSG:3395"]])
+        ops.insert(rng.randint(0, len(ops)), {"op": "set_props", "crs": newcrs, "to_planar": bool(latlon and rng.random() < 0.3)})
     crs = rng.choice([None, None, ["EPSG:4326", "EPSG:31370"], ["EPSG:4258", "EPSG:3395"]])
     queries = []
     for _ in range(3):
@@ -214,6 +218,7 @@ def check_sqlite(ctx, case):
     fn = str(sm.db_fn)
     handles = [sm]
     kinds = set()
+    crs_now = list(case["crs"]) if case["crs"] else ["EPSG:4326", "EPSG:3395"]
     try:
         for op in case["ops"]:
             o = op["op"]
@@ -238,6 +243,14 @@ def check_sqlite(ctx, case):
                     committing = not op["no_commit"]
                 elif o == "add_edges":
                     sm.add_edges([tuple(e) for e in op["edges"]], no_index=op["no_index"])
+                elif o == "set_props":
+                    sm.crs_lonlat, sm.crs_xy = op["crs"]
+                    if op.get("to_planar"):
+                        sm.use_latlon = False
+                        latlon = False
+                    sm.save_properties()
+                    crs_now = list(op["crs"])
+                    ctx.count("settings_changed_and_saved")
                 elif o == "commit":
                     sm.db.commit()
                 elif o == "reindex_nodes":
@@ -272,7 +285,7 @@ def check_sqlite(ctx, case):
         orig = snapshot(sm, labels, model.edges, case["queries"])
         # the original against the model
         exp = {"use_latlon": latlon, "distance_module": "dist_latlon" if latlon else "dist_euclidean",
-               "crs_lonlat": case["crs"][0] if case["crs"] else "EPSG:4326", "crs_xy": case["crs"][1] if case["crs"] else "EPSG:3395",
+               "crs_lonlat": crs_now[0], "crs_xy": crs_now[1],
                "size": len(labels), "labels": sorted(labels, key=repr)}
         if case["reindexed"]:
             exp["all_nodes"] = sorted(((l, model.coords[l]) for l in labels), key=repr)
